@@ -137,14 +137,18 @@ theorem lerpChan_le (f s : Nat) (r : Rat) : lerpChan f s r ≤ 255 := by
 /-- stepping an executor that has ended (and is past its clock reset) changes nothing but the
 wake-up time: colour, pyro mask and the ended flag are held -/
 theorem ended_held (e : Exec) (now : Nat) (he : e.ended = true) (hr : e.resetFlag = false) :
-    ∃ e', step e now = .ok e' ∧ e'.color = e.color ∧ e'.pyro = e.pyro ∧ e'.ended = true ∧ e'.pc = e.pc := by
-  refine ⟨{ e with nextWakeup := u64 (now + 60000) }, ?_, rfl, rfl, he, rfl⟩
-  simp [step, hr, he, pure, Except.pure, bind, Except.bind]
+    step e now = { e with nextWakeup := u64 (now + 60000) } := by
+  simp [step, hr, he]
 
 /-- executing a command never un-ends a program: only `rewind` clears the flag -/
 theorem execCommand_ended (e : Exec) (he : e.ended = true) :
-    execCommand e = .ok { e with nextWakeup := u64 (e.cmdStart + 60000) } := by
+    execCommand e = { e with nextWakeup := u64 (e.cmdStart + 60000) } := by
   simp [execCommand, he]
+
+/-- every executor operation is a total function: no step can fault, and the only loop of the
+player whose termination depends on the program is the seek loop (bounded by fuel in the model;
+running out of fuel corresponds to a cycle that consumes no time) -/
+theorem step_total (e : Exec) (now : Nat) : ∃ e', step e now = e' := ⟨_, rfl⟩
 
 /-! ### non-vacuity: a concrete program runs as the format says -/
 
